@@ -30,9 +30,11 @@ const (
 )
 
 type tdPend struct {
-	peer  int
-	ce    string
-	short bool
+	peer      int
+	ce        string
+	short     bool
+	need      int // approval callbacks of the written feature
+	approvals int // approvals given to THIS write
 }
 
 type tdExt struct {
@@ -46,20 +48,28 @@ type tdExt struct {
 	lastShort time.Time                 // when the last short timer was armed
 	gen       *regStats // generator quality by SPEC expectation
 	preBits   map[int]string
+	used      map[int]map[uint64]bool // write counters used on the current connection of a peer
+	need      map[string]int          // approval callbacks per guarded feature
+	everCtr   map[int]map[uint64]bool // write counters ever used by a peer, on any of its connections
 	early     bool // a short timer fired before its `fire` step (timing flake, history abandoned)
 }
 
 func newTdExt(w *regWorld) *tdExt {
-	t := &tdExt{w: w, msgs: map[uint64]*api.Message{}, appr: map[string]api.FeatureLocalInterface{}, pend: map[uint64]*tdPend{}, why: map[uint64]string{}, preBits: map[int]string{}}
+	t := &tdExt{w: w, msgs: map[uint64]*api.Message{}, appr: map[string]api.FeatureLocalInterface{}, pend: map[uint64]*tdPend{}, why: map[uint64]string{}, preBits: map[int]string{},
+		used: map[int]map[uint64]bool{}, need: map[string]int{"1/1": 2, "1/2": 1}, everCtr: map[int]map[uint64]bool{}}
 	for _, a := range [][2]uint{{1, 1}, {1, 2}} {
 		lf := w.l.FeatureByAddress(h.FA("HEMS", []uint{a[0]}, a[1]))
 		lf.SetWriteApprovalTimeout(tdLong)
-		_ = lf.AddWriteApprovalCallback(func(m *api.Message) {
-			t.mu.Lock()
-			t.msgs[uint64(*m.RequestHeader.MsgCounter)] = m
-			t.mu.Unlock()
-		})
-		t.appr[fmt.Sprintf("%d/%d", a[0], a[1])] = lf
+		key := fmt.Sprintf("%d/%d", a[0], a[1])
+		// feature [1]/1 has two approval callbacks (both must approve a write), [1]/2 has one
+		for i := 0; i < t.need[key]; i++ {
+			_ = lf.AddWriteApprovalCallback(func(m *api.Message) {
+				t.mu.Lock()
+				t.msgs[uint64(*m.RequestHeader.MsgCounter)] = m
+				t.mu.Unlock()
+			})
+		}
+		t.appr[key] = lf
 	}
 	t.lc = w.l.FeatureByAddress(h.FA("HEMS", []uint{1}, 3))
 	return t
@@ -106,6 +116,7 @@ func (t *tdExt) before() {
 type tdRes struct {
 	peer int
 	ok   bool
+	gen  int
 }
 
 // results written during the step: counter reference -> (connection, success)
@@ -116,7 +127,7 @@ func (t *tdExt) results() map[uint64]tdRes {
 			continue
 		}
 		rd := o.d.Payload.Cmd[0].ResultData
-		out[uint64(*o.d.Header.MsgCounterReference)] = tdRes{o.peer, rd.ErrorNumber != nil && *rd.ErrorNumber == 0}
+		out[uint64(*o.d.Header.MsgCounterReference)] = tdRes{o.peer, rd.ErrorNumber != nil && *rd.ErrorNumber == 0, o.gen}
 	}
 	return out
 }
@@ -155,6 +166,23 @@ func (t *tdExt) step(r *h.Report, done []string, f []string, preS, preB []regEnt
 	switch f[0] {
 	case "wr": // wr p ce cf se sf w S|L
 		p, ce, cf, se, sf, ctr, short := atoi(1), f[2], uint(atoi(3)), f[4], uint(atoi(5)), uint64(atoi(6)), f[7] == "S"
+		if t.used[p] == nil {
+			t.used[p] = map[uint64]bool{}
+		}
+		if t.everCtr[p] == nil {
+			t.everCtr[p] = map[uint64]bool{}
+		}
+		if t.used[p][ctr] {
+			return "skip", "wr:skipped" // a connection never reuses a counter (a NEW connection of the same SKI does)
+		}
+		t.used[p][ctr] = true
+		if t.everCtr[p][ctr] {
+			kind = "reused-counter"
+		}
+		t.everCtr[p][ctr] = true
+		t.mu.Lock()
+		delete(t.msgs, ctr)
+		t.mu.Unlock()
 		typ := 1
 		if sv := regFind(regLocalFeats, se, sf); sv != nil {
 			typ = sv.typ
@@ -186,14 +214,19 @@ func (t *tdExt) step(r *h.Report, done []string, f []string, preS, preB []regEnt
 			impl = "denied"
 		case t.msg(ctr) != nil:
 			impl = "pending"
-			t.pend[ctr] = &tdPend{peer: p, ce: ce, short: short}
+			delete(t.why, ctr)
+			t.pend[ctr] = &tdPend{peer: p, ce: ce, short: short, need: t.need[fmt.Sprintf("%s/%d", se, sf)]}
 			if short {
 				t.lastShort = t0
 			}
 		default:
 			impl = "none"
 		}
-		kind = "wr:" + strings.Fields(impl)[0]
+		if kind == "reused-counter" {
+			kind = "wr-reused-counter:" + strings.Fields(impl)[0]
+		} else {
+			kind = "wr:" + strings.Fields(impl)[0]
+		}
 	case "approve", "deny": // approve p w
 		p, ctr := atoi(1), uint64(atoi(2))
 		impl = "-"
@@ -219,10 +252,22 @@ func (t *tdExt) step(r *h.Report, done []string, f []string, preS, preB []regEnt
 			}
 		}
 		// SPEC (C10): an approval torn down with its device / entity has disappeared — a later verdict has no effect;
-		// every other pending approval stays effective
-		switch sp := t.pend[ctr]; {
-		case sp != nil && impl == "-":
-			r.SpecFail("C10/pending-approval-of-untouched-peer-lost", done, fmt.Sprintf("%s had no effect although the write of peer %d is pending and neither its device nor its entity was removed", op, p))
+		// every other pending approval stays effective; a write is applied iff ALL callbacks approved THIS write (what was
+		// approved on an earlier connection of the same SKI does not count)
+		sp := t.pend[ctr]
+		effective := false
+		if sp != nil {
+			if f[0] == "approve" {
+				sp.approvals++
+			}
+			effective = f[0] == "deny" || sp.approvals >= sp.need
+		}
+		switch {
+		case sp != nil && impl != "-" && !effective:
+			r.SpecFail("C10/write-applied-without-all-approvals", done, fmt.Sprintf("%s took effect (%s) after %d of the %d approvals this write needs (the counter was used on an earlier connection of the same SKI: %v)", op, impl, sp.approvals, sp.need, len(t.w.gen) > 0 && t.w.gen[p] > 0))
+			effective = true
+		case sp != nil && impl == "-" && effective:
+			r.SpecFail("C10/pending-approval-of-untouched-peer-lost", done, fmt.Sprintf("%s had no effect although the write of peer %d is pending, has all its approvals and neither its device nor its entity was removed", op, p))
 		case sp == nil && impl != "-" && t.why[ctr] == "drop":
 			r.SpecFail("C10/pending-approval-survives-teardown", done, fmt.Sprintf("%s took effect (%s) after the connection of peer %d was removed", op, impl, p))
 		case sp == nil && impl != "-" && t.why[ctr] == "entity":
@@ -230,7 +275,7 @@ func (t *tdExt) step(r *h.Report, done []string, f []string, preS, preB []regEnt
 		case sp == nil && impl != "-":
 			r.SpecFail("C10/verdict-on-finished-write-took-effect", done, fmt.Sprintf("%s took effect (%s); the write had left the pending state by %q", op, impl, t.why[ctr]))
 		}
-		if t.pend[ctr] != nil {
+		if sp != nil && effective {
 			delete(t.pend, ctr)
 			t.why[ctr] = "decided"
 		}
@@ -260,7 +305,8 @@ func (t *tdExt) step(r *h.Report, done []string, f []string, preS, preB []regEnt
 		var parts []string
 		for _, c := range ctrs {
 			s := fmt.Sprintf("%d:%d", res[c].peer, c)
-			if !w.alive[res[c].peer] {
+			stale := !w.alive[res[c].peer] || res[c].gen != w.gen[res[c].peer]
+			if stale {
 				s += "!"
 			}
 			parts = append(parts, s)
@@ -269,7 +315,7 @@ func (t *tdExt) step(r *h.Report, done []string, f []string, preS, preB []regEnt
 			case sp != nil && sp.short:
 				delete(t.pend, c)
 				t.why[c] = "timeout"
-			case !w.alive[res[c].peer]:
+			case stale:
 				r.SpecFail("C10/timer-write-after-teardown", done, fmt.Sprintf("the approval timer of write %d wrote a result to the removed connection of peer %d", c, res[c].peer))
 			case t.why[c] == "entity":
 				r.SpecFail("C10/entity-removal-keeps-pending-approval", done, fmt.Sprintf("the approval timer of write %d fired although the entity the write came from was announced as removed", c))
@@ -432,12 +478,29 @@ func genTdHistory(rng regRng, n, np int, withShort bool) (ops []string, firstSho
 		}
 		return false
 	}
+	ctrsOf := map[int][]int{}
 	for i := 0; i < n; i++ {
 		if latePeer != 0 && i == discoverAt {
 			ops = append(ops, fmt.Sprintf("discover %d", latePeer))
 		}
 		if rng.Intn(25) == 0 {
 			ops = append(ops, fmt.Sprintf("addent %d %s", 1+rng.Intn(np), []string{"1", "1.1", "2"}[rng.Intn(3)]))
+		}
+		if rng.Intn(12) == 0 {
+			// a removed SKI connects again (skipped while it is connected), binds as before and writes with a counter its
+			// earlier connection used, with one approval
+			q := 1 + rng.Intn(np)
+			ops = append(ops, fmt.Sprintf("reconnect %d", q))
+			for _, b := range prefix {
+				if b.p == q {
+					ops = append(ops, fmt.Sprintf("bind %d %s %d %d %d %d", q, tdE(b.ce), b.cf, b.se, b.sf, map[int]int{1: 1, 2: 2}[b.sf]))
+					if cs := ctrsOf[q]; len(cs) > 0 {
+						c := cs[rng.Intn(len(cs))]
+						ops = append(ops, fmt.Sprintf("wr %d %s %d %d %d %d L", q, tdE(b.ce), b.cf, b.se, b.sf, c), fmt.Sprintf("approve %d %d", q, c))
+						pend = append(pend, fmt.Sprintf("%d %d", q, c))
+					}
+				}
+			}
 		}
 		p := 1 + rng.Intn(np)
 		v := valid[rng.Intn(len(valid))]
@@ -455,9 +518,13 @@ func genTdHistory(rng regRng, n, np int, withShort bool) (ops []string, firstSho
 			ctr++
 			ops = append(ops, fmt.Sprintf("wr %d %s %d %d %d %d L", b.p, tdE(b.ce), b.cf, b.se, b.sf, ctr))
 			pend = append(pend, fmt.Sprintf("%d %d", b.p, ctr))
+			ctrsOf[b.p] = append(ctrsOf[b.p], ctr)
 		case k < 19 && len(pend) > 0:
 			j := rng.Intn(len(pend))
 			ops = append(ops, []string{"approve ", "approve ", "deny "}[rng.Intn(3)]+pend[j])
+			if rng.Intn(2) == 0 {
+				ops = append(ops, "approve "+pend[j]) // the second callback's answer
+			}
 			if rng.Intn(3) > 0 {
 				pend = append(pend[:j], pend[j+1:]...)
 			}
@@ -490,6 +557,10 @@ func genTdHistory(rng regRng, n, np int, withShort bool) (ops []string, firstSho
 			for j := 0; j < 1+rng.Intn(2); j++ {
 				ctr++
 				ops = append(ops, fmt.Sprintf("wr %d %s %d %d %d %d S", b.p, tdE(b.ce), b.cf, b.se, b.sf, ctr))
+				ctrsOf[b.p] = append(ctrsOf[b.p], ctr)
+				if rng.Intn(2) == 0 {
+					ops = append(ops, fmt.Sprintf("approve %d %d", b.p, ctr)) // one of the approvals it needs, before the timeout
+				}
 			}
 			switch rng.Intn(4) {
 			case 0:
@@ -517,7 +588,7 @@ func tdObserve(ops []string, np int, withFire bool) []string {
 			k := f[1] + " " + f[6]
 			if !decided[k] {
 				decided[k] = true
-				tail = append(tail, "approve "+k)
+				tail = append(tail, "approve "+k, "approve "+k)
 			}
 		}
 	}
@@ -529,6 +600,8 @@ func tdObserve(ops []string, np int, withFire bool) []string {
 
 var tdWitTimer = []string{"peers 2", "bind 1 1 1 1 1 1", "wr 1 1 1 1 1 100001 S", "drop 1", "fire"}
 var tdWitEntityAppr = []string{"peers 2", "bind 1 1 1 1 1 1", "wr 1 1 1 1 1 100001 L", "dropent 1 1", "approve 1 100001"}
+var tdWitTally = []string{"peers 2", "bind 1 1 1 1 1 1", "wr 1 1 1 1 1 100001 S", "approve 1 100001", "fire", "drop 1", "reconnect 1", "bind 1 1 1 1 1 1",
+	"wr 1 1 1 1 1 100001 L", "approve 1 100001", "chas 1", "approve 1 100001", "read 1"}
 var tdWitBinding = []string{"peers 2", "bind 2 1 1 1 1 1", "bind 1 1 1 2 1 1", "csub 1 1", "csub 2 1", "cbind 2 1", "wr 2 1 1 1 1 100001 L", "wr 1 1 1 2 1 100002 L", "drop 1", "binds 2", "chas 1", "chas 2", "approve 2 100001", "read 2", "resolve 1", "resolve 2"}
 
 func TestTeardown(t *testing.T) {
@@ -559,7 +632,9 @@ func TestTeardown(t *testing.T) {
 	entAppr := probe(tdWitEntityAppr, "C10/entity-removal-keeps-pending-approval")
 	r.SetFlag("timersSurvive", timers, tdWitTimer, "CleanWriteApprovalCaches forgets the pending approvals without stopping their timers")
 	r.SetFlag("entityKeepsApprovals", entAppr, tdWitEntityAppr, "the removal of a remote entity leaves the approvals pending for writes of its features in place")
-	if a := d.Ask(flags.cfgLine() + fmt.Sprintf(" %d %d", h.B2i(timers), h.B2i(entAppr))); a != "cfg" {
+	tally := probe(tdWitTally, "C10/write-applied-without-all-approvals")
+	r.SetFlag("tallySurvivesDrop", tally, tdWitTally, "the approval tallies of a removed connection are inherited by the next connection with the same SKI")
+	if a := d.Ask(flags.cfgLine() + fmt.Sprintf(" %d %d %d", h.B2i(timers), h.B2i(entAppr), h.B2i(tally))); a != "cfg" {
 		panic("drv_td: " + a)
 	}
 	run := func(ops []string) {
@@ -581,9 +656,16 @@ func TestTeardown(t *testing.T) {
 		run(ops)
 		return
 	}
-	for _, wit := range [][]string{tdWitTimer, tdWitEntityAppr, tdWitBinding, regWitDropAny, regWitDropEntAny} {
+	for _, wit := range [][]string{tdWitTimer, tdWitEntityAppr, tdWitTally, tdWitBinding, regWitDropAny, regWitDropEntAny} {
 		run(wit)
 	}
+	// a removed SKI that connects again starts from scratch: partial approvals, pending writes, registry entries and
+	// bookkeeping of its earlier connection do not count, reused counters are new writes, the old writer stays silent
+	run([]string{"peers 2", "bind 1 1 1 1 1 1", "sub 1 1 1 1 1 1", "csub 1 1", "cbind 1 1.1", "wr 1 1 1 1 1 100001 L", "approve 1 100001", "wr 1 1 1 1 1 100002 S", "approve 1 100002", "fire",
+		"wr 1 1 1 1 1 100003 S", "drop 1", "reconnect 1", "fire", "subs 1", "binds 1", "chas 1", "approve 1 100001", "bind 1 1 1 1 1 1", "wr 1 1 1 1 1 100001 L", "approve 1 100001", "wr 1 1 1 1 1 100002 L", "approve 1 100002",
+		"approve 1 100002", "wr 1 1 1 1 1 100003 L", "deny 1 100003", "approve 1 100001", "notify 1 1", "read 1", "drop 1", "reconnect 1", "bind 1 1 1 1 1 1", "wr 1 1 1 1 1 100001 L", "approve 1 100001", "approve 1 100001"})
+	run([]string{"peers 2", "bind 2 1 2 1 2 2", "wr 2 1 2 1 2 100001 L", "bind 1 1 1 1 1 1", "wr 1 1 1 1 1 100002 L", "approve 1 100002", "drop 1", "approve 2 100001", "reconnect 1", "bind 1 1 1 1 1 1",
+		"wr 1 1 1 1 1 100002 S", "approve 1 100002", "fire", "wr 1 1 1 1 1 100004 L", "approve 1 100004", "approve 1 100004"})
 	// a peer that is still before its discovery reply when another connection is removed must be served afterwards
 	run([]string{"peers 2 late:2", "bind 1 1 1 1 1 1", "csub 1 1", "drop 1", "chas 2", "discover 2", "chas 2", "csub 2 1", "bind 2 1 1 1 1 1", "wr 2 1 1 1 1 100001 L", "approve 2 100001", "read 2", "dropent 2 1.1", "addent 2 1.1", "sub 2 1.1 1 1 1 1", "subs 2"})
 	run([]string{"peers 3 late:3", "sub 1 1 1 1 1 1", "sub 2 1 1 1 1 1", "drop 1", "drop 2", "discover 3", "chas 3", "sub 3 1 1 1 1 1", "notify 1 1"})
@@ -606,7 +688,7 @@ func TestTeardown(t *testing.T) {
 		return append(ops, tdObserve(b, np, withFire)...)
 	}
 	// long timers only: a fault at every position
-	for i := 0; i < h.Scale(16, 150); i++ {
+	for i := 0; i < h.Scale(12, 150); i++ {
 		np := 2 + rng.Intn(2)
 		b, _ := genTdHistory(rng, 15+rng.Intn(25), np, false)
 		for pos := 1; pos <= len(b); pos++ {
